@@ -197,25 +197,42 @@ func (ck *checker) routes(e *jpref.Eq, elem any, class string, cs map[string]any
 	// the same filter over gen data, and the filter with its operands rooted at the document instead of the
 	// element ($[0].x for @.x: the document is the one-element list, so the truth value is the same) over both
 	// representations: every evaluator has to hand the document, not the element, to the script
-	filters := map[string]*jp.Filter{"Filter": filter}
-	if er, changed := rootify(e); changed {
-		if p := mon.Guard(func() { filters["Filter($-rooted operands)"] = jpspec.ToEquation(er).Filter() }); p != nil {
+	type variant struct {
+		name string
+		f    *jp.Filter
+		wrap bool
+	}
+	variants := []variant{{"Filter", filter, false}}
+	if er, changed := rootify(e, false, new(int)); changed {
+		// a third form: the element sits one level down ({"w": element}), the first operand is rooted at the
+		// document and the later ones at the element ($[0].w.l == @.w.r): an evaluator must go back to the
+		// element after it has looked at the document, on paths longer than the one-member shortcut
+		em, _ := rootify(e, true, new(int))
+		var f1, f2 *jp.Filter
+		if p := mon.Guard(func() { f1, f2 = jpspec.ToEquation(er).Filter(), jpspec.ToEquation(em).Filter() }); p != nil {
 			c.Violation("jp.Equation.Filter", "panic", class, cs, "a filter", p.String())
 			return res, false
 		}
+		variants = append(variants, variant{"Filter($-rooted operands)", f1, false}, variant{"Filter($ operand, then deeper @ operands)", f2, true})
 		c.Cover("route:document-rooted-operands")
 	}
-	for fname, f := range filters {
-		fx := jp.Expr{f}
+	for _, vr := range variants {
+		fname := vr.name
+		fx := jp.Expr{vr.f}
 		for _, rep := range []string{"simple", "gen"} {
 			if fname == "Filter" && rep == "simple" {
 				continue // done above
 			}
+			wrap := vr.wrap
 			doc := func() any {
-				if rep == "gen" {
-					return gen.Array{toGen(elem)}
+				el := elem
+				if wrap {
+					el = map[string]any{"w": elem}
 				}
-				return []any{elem}
+				if rep == "gen" {
+					return gen.Array{toGen(el)}
+				}
+				return []any{el}
 			}
 			size := func(v any) int {
 				switch t := v.(type) {
@@ -256,23 +273,31 @@ func (ck *checker) routes(e *jpref.Eq, elem any, class string, cs map[string]any
 	return res, ok
 }
 
-// rootify returns e with every element-rooted operand path (@...) rooted at the document instead ($[0]...),
-// for a document that is a one-element list holding the element; filters nested inside a path keep their @.
-func rootify(e *jpref.Eq) (*jpref.Eq, bool) {
+// rootify returns e with its element-rooted operand paths (@...) rooted at the document ($[0]...), for a
+// document that is a one-element list holding the element; filters nested inside a path keep their @. With
+// mixed, the element is expected one level down under "w": the first operand becomes $[0].w..., the later ones
+// @.w... .
+func rootify(e *jpref.Eq, mixed bool, seen *int) (*jpref.Eq, bool) {
 	if e == nil {
 		return nil, false
 	}
 	out := *e
-	changed := false
 	if e.Op == "path" && len(e.Path) > 0 && e.Path[0].Kind == "at" {
-		out.Path = append(jpref.Path{jpspec.Root(), jpspec.Nth(0)}, e.Path[1:]...)
+		*seen++
+		switch {
+		case !mixed:
+			out.Path = append(jpref.Path{jpspec.Root(), jpspec.Nth(0)}, e.Path[1:]...)
+		case *seen == 1:
+			out.Path = append(jpref.Path{jpspec.Root(), jpspec.Nth(0), jpspec.Child("w")}, e.Path[1:]...)
+		default:
+			out.Path = append(jpref.Path{jpspec.At(), jpspec.Child("w")}, e.Path[1:]...)
+		}
 		return &out, true
 	}
 	var c1, c2 bool
-	out.L, c1 = rootify(e.L)
-	out.R, c2 = rootify(e.R)
-	changed = c1 || c2
-	return &out, changed
+	out.L, c1 = rootify(e.L, mixed, seen)
+	out.R, c2 = rootify(e.R, mixed, seen)
+	return &out, c1 || c2
 }
 
 // check evaluates e on elem and compares with S.
